@@ -35,7 +35,10 @@ def run(check, repo="/repo", timeout=600):
     exe, err = build(repo)
     if exe is None:
         return dict(check=check, status="undecided", why="bounded stand-in does not build against this tree: " + err[-600:], wall_s=round(time.time() - t0, 1))
-    p = subprocess.run(["timeout", str(timeout), exe, check], capture_output=True, text=True)
+    scratch = os.path.join(VERIF, "build", "scratch")
+    os.makedirs(scratch, exist_ok=True)
+    p = subprocess.run(["timeout", str(timeout), exe, check], capture_output=True, text=True,
+                       env=dict(os.environ, VERIF_SCRATCH=scratch))
     cex, summary = [], None
     for ln in p.stdout.split("\n"):
         ln = ln.strip()
